@@ -253,8 +253,10 @@ def do_janssen(c):
     def balance_at(i, zz):
         sp = spec[i:i + 1] if False else _j["mk"](f, dirs, Es[i][None, :, :], times[:1], np.zeros(1), np.zeros(1), depth=depth[i:i + 1])
         Ui = xarray.DataArray(U.values[i:i + 1], dims=("time",)); Di = xarray.DataArray(D.values[i:i + 1], dims=("time",))
+        # the balance is evaluated under the canonical spelling of the wind type ("ustar" is a documented alias of
+        # "friction_velocity"): the roughness returned for an alias must balance the same stress
         st = gen.stress(sp, Ui, Di, roughness_length=xarray.DataArray(np.array([zz]), dims=("time",)),
-                        wind_speed_input_type=typ)["stress"].values[0]
+                        wind_speed_input_type=("friction_velocity" if typ == "ustar" else typ))["stress"].values[0]
         us = U.values[i] * kap / np.log(elev / zz) if typ == "u10" else U.values[i]
         return rho * us * us, st
 
